@@ -293,7 +293,7 @@ def run_c07(rep: Report, tier: str, work: Path) -> None:
 
 # ===========================================================================
 # C08
-C08_INV = ["ImplRefinesDecl", "NoFuture", "NoStale", "NoInvalid", "NoneIffEmpty", "WindowSuffix", "BufIsTailOfHist", "LostIsWhatBufLacks", "Sorted", "TypeOK"]
+C08_INV = ["ImplRefinesDecl", "NoFuture", "NoStale", "NoInvalid", "NoneIffEmpty", "WindowSuffix", "InputPeriodSane", "BufIsTailOfHist", "LostIsWhatBufLacks", "Sorted", "TypeOK"]
 C08_DISAGREEMENT = "C08.SourceProperties"  # estimator transcription vs code: not a property clause
 
 
@@ -306,29 +306,32 @@ def _cfgset(cfgs: list[dict]):
 S1 = 1_000_000  # microseconds per model tick: whole seconds ...
 # ... and configurations whose resampling period is NOT a whole number of seconds: 0.75 s (3 ticks of 0.25 s),
 # 1.5 s (3 ticks of 0.5 s, and 6 ticks of 0.25 s = down-sampling a 0.25 s input)
-FRAC = [dict(P=3, age=1, L0=2, maxbuf=8, tick=250_000), dict(P=3, age=2, L0=2, maxbuf=8, tick=500_000), dict(P=6, age=1, L0=3, maxbuf=16, tick=250_000)]
+# ... and sources whose clock runs ahead of the resampler by more than a period (P = 2 ticks, lead 5; P = 4, lead 9;
+# 0.75 s period, lead 4): the first samples fill the initial buffer while every tick is still <= sampling_start
+AHEAD = [dict(P=2, age=1, L0=2, maxbuf=8, tick=S1, lead=5), dict(P=4, age=1, L0=2, maxbuf=8, tick=S1, lead=9), dict(P=3, age=1, L0=2, maxbuf=8, tick=250_000, lead=4)]
+FRAC = [dict(P=3, age=1, L0=2, maxbuf=8, tick=250_000, lead=0), dict(P=3, age=2, L0=2, maxbuf=8, tick=500_000, lead=0), dict(P=6, age=1, L0=3, maxbuf=16, tick=250_000, lead=0)]
 
 C08_SCOPES = {
     "quick": dict(
         history=dict(
-            cfgs=[dict(P=2, age=1, L0=2, maxbuf=8, tick=S1), dict(P=2, age=2, L0=3, maxbuf=8, tick=S1), dict(P=4, age=1, L0=2, maxbuf=3, tick=S1), FRAC[0]],
+            cfgs=[dict(P=2, age=1, L0=2, maxbuf=8, tick=S1, lead=0), dict(P=2, age=2, L0=3, maxbuf=8, tick=S1, lead=0), dict(P=4, age=1, L0=2, maxbuf=3, tick=S1, lead=0), FRAC[0], AHEAD[0]],
             consts=dict(DeltaSet={0, 1, 2, 3, 5}, Fut=2, MaxRecv=4, MaxInvalid=1, MaxTicks=3),
             limit=4000,
         ),
         sim=dict(
-            cfgs=[dict(P=2, age=1, L0=2, maxbuf=8, tick=S1), dict(P=2, age=2, L0=3, maxbuf=8, tick=S1), dict(P=4, age=1, L0=2, maxbuf=3, tick=S1), dict(P=4, age=2, L0=3, maxbuf=16, tick=S1), dict(P=2, age=1, L0=3, maxbuf=4, tick=S1)] + FRAC,
+            cfgs=[dict(P=2, age=1, L0=2, maxbuf=8, tick=S1, lead=0), dict(P=2, age=2, L0=3, maxbuf=8, tick=S1, lead=0), dict(P=4, age=1, L0=2, maxbuf=3, tick=S1, lead=0), dict(P=4, age=2, L0=3, maxbuf=16, tick=S1, lead=0), dict(P=2, age=1, L0=3, maxbuf=4, tick=S1, lead=0)] + FRAC + AHEAD,
             consts=dict(DeltaSet={0, 1, 2, 3, 4, 5, 7, 9}, Fut=5, MaxRecv=10, MaxInvalid=3, MaxTicks=6),
             num=1600,
         ),
     ),
     "thorough": dict(
         history=dict(
-            cfgs=[dict(P=2, age=1, L0=2, maxbuf=8, tick=S1), dict(P=2, age=2, L0=3, maxbuf=8, tick=S1), dict(P=4, age=1, L0=2, maxbuf=3, tick=S1), dict(P=2, age=1, L0=3, maxbuf=4, tick=S1), FRAC[0]],
+            cfgs=[dict(P=2, age=1, L0=2, maxbuf=8, tick=S1, lead=0), dict(P=2, age=2, L0=3, maxbuf=8, tick=S1, lead=0), dict(P=4, age=1, L0=2, maxbuf=3, tick=S1, lead=0), dict(P=2, age=1, L0=3, maxbuf=4, tick=S1, lead=0), FRAC[0], AHEAD[0]],
             consts=dict(DeltaSet={0, 1, 2, 3, 5}, Fut=2, MaxRecv=5, MaxInvalid=1, MaxTicks=4),
             limit=120000,
         ),
         sim=dict(
-            cfgs=[dict(P=2, age=1, L0=2, maxbuf=8, tick=S1), dict(P=2, age=2, L0=3, maxbuf=8, tick=S1), dict(P=4, age=1, L0=2, maxbuf=3, tick=S1), dict(P=4, age=2, L0=3, maxbuf=16, tick=S1), dict(P=2, age=1, L0=3, maxbuf=4, tick=S1), dict(P=4, age=3, L0=2, maxbuf=32, tick=S1)] + FRAC,
+            cfgs=[dict(P=2, age=1, L0=2, maxbuf=8, tick=S1, lead=0), dict(P=2, age=2, L0=3, maxbuf=8, tick=S1, lead=0), dict(P=4, age=1, L0=2, maxbuf=3, tick=S1, lead=0), dict(P=4, age=2, L0=3, maxbuf=16, tick=S1, lead=0), dict(P=2, age=1, L0=3, maxbuf=4, tick=S1, lead=0), dict(P=4, age=3, L0=2, maxbuf=32, tick=S1, lead=0)] + FRAC + AHEAD,
             consts=dict(DeltaSet={0, 1, 2, 3, 4, 5, 7, 9}, Fut=5, MaxRecv=14, MaxInvalid=4, MaxTicks=6),
             num=80000,
         ),
@@ -434,7 +437,8 @@ def _c08_stage(rep: Report, name: str, sc: dict, work: Path, mode: str) -> None:
     # non-vacuity: how many replayed behaviours reach the regimes the clauses are about
     ex = rep.extra.setdefault("behaviours_exercising", {})
     keys = ("estimator_ran", "buffer_resized", "upsampling_window", "buffer_evicted_samples", "future_sample_in_buffer_at_tick",
-            "fractional_period_estimator_ran", "fractional_period_buffer_resized", "invalid_sample_received", "tick_with_nothing_handed", "tick_with_samples_handed", "sample_stamped_exactly_T", "sample_stamped_exactly_window_start")
+            "fractional_period_estimator_ran", "fractional_period_buffer_resized",
+            "estimator_consulted_with_first_sample_stamped_at_or_after_tick", "estimated_at_first_tick_after_first_sample_stamp", "source_clock_ahead_by_more_than_a_period", "invalid_sample_received", "tick_with_nothing_handed", "tick_with_samples_handed", "sample_stamped_exactly_T", "sample_stamped_exactly_window_start")
     cnt = dict.fromkeys(keys, 0)
     for _, line in cases:
         st = _parse_line(line)
@@ -442,6 +446,10 @@ def _c08_stage(rep: Report, name: str, sc: dict, work: Path, mode: str) -> None:
         ticks = [s for s in st if s["a"] == "tick"]
         recv_ts = [s["ts"] for s in st if s["a"] == "recv" and s["kind"] == "valid"]
         cnt["estimator_ran"] += any(s["est"] for s in ticks)
+        g = [i for i, s in enumerate(ticks) if s["guarded"]]
+        cnt["estimator_consulted_with_first_sample_stamped_at_or_after_tick"] += bool(g)
+        cnt["estimated_at_first_tick_after_first_sample_stamp"] += bool(g) and any(s["est"] for s in ticks[g[0] :])
+        cnt["source_clock_ahead_by_more_than_a_period"] += st[0]["lead"] > P and bool(recv_ts)
         frac = (P * st[0]["tick"]) % 1_000_000 != 0  # the resampling period is not a whole number of seconds
         cnt["fractional_period_estimator_ran"] += frac and any(s["est"] for s in ticks)
         cnt["fractional_period_buffer_resized"] += frac and any(s["resized"] for s in ticks)
